@@ -119,6 +119,33 @@ class C10(flow.Spec):
                     "harness/detsched scheduler and shim (one logical thread at a time; every std synchronisation "
                     "operation inside namespace tlx is a scheduling point)"]
 
+    def extra_coverage(self, ctx, res):
+        """thorough tier: the real primitives on real threads under ThreadSanitizer (supporting evidence)"""
+        if ctx.tier != "thorough":
+            return {}
+        hb, log = core.build_harness(ctx, name="c10_tsan", sources=["c10_tsan.cpp"], repo_sources=["tlx/thread_pool.cpp"],
+                                     std_flags=["-std=gnu++17", "-O1", "-g", "-fsanitize=thread", "-Wno-tsan"])
+        if hb is None:
+            ctx.say("tsan harness does not compile:", log[-400:])
+            return {"tsan_real_threads": "not built"}
+        runs, bad, inconclusive = 0, None, 0
+        for _ in range(5):
+            rc, out, err = core.sh([hb], timeout=600, env={"TSAN_OPTIONS": "halt_on_error=1:exitcode=66"})
+            runs += 1
+            if rc == 3:
+                inconclusive += 1
+            elif rc != 0:
+                bad = (rc, (out + err)[-3000:])
+                break
+        if bad is not None:
+            path = ctx.write_replay(f"tsan_{ctx.tier}_{ctx.seed}.txt",
+                                    ["kind: real-thread ThreadSanitizer run failed (data race / failed check)",
+                                     f"replay: build harness/c10_tsan.cpp with -fsanitize=thread against the repo and run it (rc={bad[0]})"],
+                                    bad[1].splitlines())
+            ctx.violation(path, "real-thread run under ThreadSanitizer reports a race or a failed check", True)
+        ctx.say(f"tsan real-thread runs: {runs}, inconclusive (watchdog): {inconclusive}, failed: {0 if bad is None else 1}")
+        return {"tsan_real_threads": {"runs": runs, "inconclusive": inconclusive, "failed": bad is not None}}
+
     def viol_class(self, message):
         m = re.sub(r"[0-9]+", "N", message.replace("#VIOL", "")).split(" although")[0]
         return " ".join(m.split()[:8])
